@@ -77,6 +77,7 @@ func translate(P *Program, fn *ssa.Function, ct *Contract, disabled map[string]b
 	ea := tr.get(entry, "alloc")
 	tr.assume(f.And(f.ULe(f.BVu(64, 0x2000000), ea), f.ULt(ea, f.BVu(64, 1<<61))), "allocation counter range at entry")
 	tr.assume(f.And(f.ILe(f.IntC(0), tr.get(entry, "ev.len")), f.ILe(tr.get(entry, "ev.len"), f.IntC(1<<59))), "event log length is non-negative (and below 2^59)")
+	tr.assume(f.ULt(tr.get(entry, "epoch"), f.BVu(64, 1<<62)), "sync epoch below 2^62")
 	tr.declLocks()
 
 	// parameters
@@ -306,6 +307,14 @@ func (tr *Tr) frameObligations(env *Env, ct *Contract, entry, exit *State, reach
 	for _, k := range heapKeys {
 		var excl []*Term
 		for _, it := range items {
+			if it.objsOf != nil {
+				for _, kk := range it.keys {
+					if kk == k {
+						excl = append(excl, f.Eq(tr.rtype(r), f.BVu(64, typeTag(it.objsOf))))
+					}
+				}
+				continue
+			}
 			if it.reg == nil {
 				continue
 			}
